@@ -286,15 +286,16 @@ func checkMain(args []string) int {
 	labelsReached := map[string]map[string]bool{}
 	for _, r := range results {
 		hk := r.Cfg.Pkg + "." + r.Cfg.Func
-		if labelsWanted[hk] == nil {
-			labelsWanted[hk] = map[string]bool{}
-			labelsReached[hk] = map[string]bool{}
+		lk := r.Cfg.Pkg // labels are qualified by the function that contains the vReach call
+		if labelsWanted[lk] == nil {
+			labelsWanted[lk] = map[string]bool{}
+			labelsReached[lk] = map[string]bool{}
 		}
 		for _, l := range r.Labels {
-			labelsWanted[hk][l] = true
+			labelsWanted[lk][l] = true
 		}
 		for _, l := range r.Reached {
-			labelsReached[hk][l] = true
+			labelsReached[lk][l] = true
 		}
 		if r.Error != "" {
 			engineErrors++
